@@ -200,6 +200,8 @@ type Chain struct {
 	SlotSteps                 []HonestSlots
 	prevEff                   []common.Gwei
 	cancelDone                map[string]bool
+	QuietRegistry             bool                    // no operation ever touches the registry (sync_same_multiset)
+	prevSyncDraw              []common.ValidatorIndex // own transcription of the previous get_next_sync_committee_indices
 	partialKeys               map[KeyNum]bool
 	zeroKeys                  map[KeyNum]bool
 	zeroIndex                 map[common.ValidatorIndex]bool
